@@ -795,3 +795,103 @@ fn collect_subterms(t: &T, out: &mut Vec<T>) {
         _ => {}
     }
 }
+
+/// C10: str_replace_re / str_replace_re_all through the SMT-LIB-named wrappers
+pub fn drive_c10(a: &Args) {
+    let mut rng = Rng::new(a.seed);
+    let pool = Pool::new(&mut rng, true);
+    // patterns over {a,b}: depth <= 1 complete, depth 2 sampled, plus random
+    let atoms = vec![T::None, T::Eps, T::Chr(pool.a), T::Chr(pool.b), T::Rng(pool.a, pool.b), T::AllChar, T::All];
+    let mut pats: Vec<T> = depth1(&atoms);
+    let stride = a.sz(151, 7);
+    pats.extend(depth2(&atoms[..6].to_vec(), stride, (a.seed as usize) % stride, false));
+    for _ in 0..a.sz(150, 3000) {
+        pats.push(random_term(&mut rng, 3, &pool));
+    }
+    let pats: Vec<T> = pats.into_iter().map(|t| t.smt_form()).filter(|t| t.cost() <= COST_LIMIT).collect();
+    let subjects = {
+        let mut all: Vec<Vec<u32>> = vec![vec![]];
+        let mut fr: Vec<Vec<u32>> = vec![vec![]];
+        for _ in 0..a.sz(4, 5) {
+            let mut nx = vec![];
+            for w in &fr {
+                for &c in &[pool.a, pool.b] {
+                    let mut x = w.clone();
+                    x.push(c);
+                    nx.push(x);
+                }
+            }
+            all.extend(nx.iter().cloned());
+            fr = nx;
+        }
+        all
+    };
+    let repls: Vec<Vec<u32>> = vec![vec![], vec![88], vec![pool.a, pool.b]];
+    let mut out = Out::create(&a.out, "c10_replace.ndjson");
+    // jobs are run on wrapper threads: one long-lived (dirty thread-local manager), others fresh
+    let seed = a.seed;
+    let njobs = pats.len();
+    let chunk = 60;
+    let mut k = 0;
+    let mut results: Vec<Value> = vec![];
+    let mut dirty: Vec<(usize, T)> = vec![];
+    while k < njobs {
+        let items: Vec<(usize, T)> = (k..(k + chunk).min(njobs)).map(|i| (i, pats[i].clone())).collect();
+        if (k / chunk) % 2 == 0 {
+            dirty.extend(items);
+        } else {
+            results.extend(run_replace_jobs(items, subjects.clone(), repls.clone(), seed, a.thorough()));
+        }
+        k += chunk;
+    }
+    results.extend(run_replace_jobs(dirty, subjects.clone(), repls.clone(), seed ^ 77, a.thorough()));
+    for v in results {
+        out.emit(v);
+    }
+    let n = out.finish();
+    println!("{{\"family\":\"c10\",\"patterns\":{},\"subjects\":{},\"events\":{}}}", njobs, subjects.len(), n);
+}
+
+fn run_replace_jobs(items: Vec<(usize, T)>, subjects: Vec<Vec<u32>>, repls: Vec<Vec<u32>>, seed: u64, thorough: bool) -> Vec<Value> {
+    std::thread::spawn(move || {
+        let mut rng = Rng::new(seed);
+        let mut out = vec![];
+        for (id, t) in items {
+            let built = guarded(|| t.build_smt());
+            let e = match built {
+                Ok(e) => e,
+                Err(msg) => {
+                    out.push(json!({"op":"panic","id":id,"ast":t.json(),"where":"wrappers","msg":msg}));
+                    continue;
+                }
+            };
+            let mut calls = vec![];
+            let mut panics = vec![];
+            for (si, s) in subjects.iter().enumerate() {
+                // every subject with one replacement (all three in the thorough tier for short subjects)
+                let picks: Vec<&Vec<u32>> = if thorough && s.len() <= 3 { repls.iter().collect() } else { vec![&repls[(si + id) % 3]] };
+                // sample the longer subjects in the quick tier
+                if !thorough && s.len() >= 4 && rng.below(3) != 0 {
+                    continue;
+                }
+                for u in picks {
+                    let (ss, us) = (SmtString::from(s.clone()), SmtString::from(u.clone()));
+                    for all in [false, true] {
+                        let r = guarded(|| if all { smt::str_replace_re_all(&ss, e, &us) } else { smt::str_replace_re(&ss, e, &us) });
+                        match r {
+                            Ok(x) => {
+                                let v: Vec<u32> = x.iter().cloned().collect();
+                                calls.push(json!({"s":s,"u":u,"all":all,"r":v,"good":x.is_good()}));
+                            }
+                            Err(msg) => panics.push(json!({"s":s,"u":u,"all":all,"msg":msg})),
+                        }
+                    }
+                }
+            }
+            out.push(json!({"op":"replace_re","id":id,"ast":t.json(),"nullable":e.nullable,"calls":calls,"panics":panics}));
+        }
+        out
+    })
+    .join()
+    .expect("replace thread")
+}
